@@ -1,6 +1,98 @@
-import Percival.Model.Parsenum
-import Percival.Model.ParsenumFloat
-import Percival.Model.Humansize
+import Percival.Proofs.Parsenum
+/-!
+# C16 — numeric text parsing is exact
+
+Integer targets.  `parsenum t bs min max base trailing` is the model of
+`PARSENUM_EX(&x, s, min, max, base, trailing)` for a target `x` of integer type `t` on the C string
+whose bytes are `cstr bs`; `Accepts base trailing s v` is the language of `Spec/Numeral.lean`
+(whole string = white space + one numeral of value `v`; or, with trailing characters allowed, the
+longest numeral the string starts with); `InRange t min max v` is "within the requested bounds and
+the target type".  The three theorems together say that the answer is a function of the
+specification alone: right value, or EINVAL (malformed), or ERANGE (out of range) — never a
+wrapped value.
+-/
 namespace Percival.C16
-theorem placeholder : True := trivial
+open Percival.Spec.Numeral Percival.Spec.Parsenum Percival.Model.Strto Percival.Model.Parsenum
+open Percival.Proofs.Parsenum
+
+/-- Success, with value `v`, exactly when the string is a numeral of value `v` lying within the
+    bounds and the type. -/
+theorem parsenum_ok_iff (t : IntTy) (bs : List UInt8) (min max : CVal) (base : Nat) (trailing : Bool)
+    (v : Int) (_hbase : ValidBase base) (hb : BoundsOk t min max) :
+    parsenum t bs min max base trailing = .ok v ↔
+      Accepts base trailing (cstr bs) v ∧ InRange t min max v := by
+  unfold parsenum; rw [ex6_master _ _ _ _ _ _ hb]; exact expected_ok_iff _ _ _ _ _
+
+example : parsenum .u64 [0x20, 0x30, 0x78, 0x31, 0x30] (.s (-5)) (.u 16) 0 false = .ok 16 := by decide
+example : ValidBase 0 ∧ BoundsOk .u64 (.s (-5)) (.u 16) := by
+  refine ⟨Or.inl rfl, ?_, ?_, ?_⟩ <;> simp [CVal.Valid, IMIN, IMAX, UMAX, IntTy.signed]
+
+/-- EINVAL exactly when the string is not (does not start with) a numeral of the base. -/
+theorem parsenum_einval_iff (t : IntTy) (bs : List UInt8) (min max : CVal) (base : Nat) (trailing : Bool)
+    (_hbase : ValidBase base) (hb : BoundsOk t min max) :
+    parsenum t bs min max base trailing = .einval ↔ ¬ ∃ v, Accepts base trailing (cstr bs) v := by
+  unfold parsenum; rw [ex6_master _ _ _ _ _ _ hb]; exact expected_einval_iff _ _ _ _
+
+example : parsenum .i8 [0x30, 0x78, 0x67] (.s (-128)) (.s 127) 16 false = .einval := by decide
+example : parsenum .i8 [0x30, 0x78, 0x67] (.s (-128)) (.s 127) 16 true = .ok 0 := by decide
+
+/-- ERANGE exactly when the string is a numeral whose value is outside the bounds or the type. -/
+theorem parsenum_erange_iff (t : IntTy) (bs : List UInt8) (min max : CVal) (base : Nat) (trailing : Bool)
+    (_hbase : ValidBase base) (hb : BoundsOk t min max) :
+    parsenum t bs min max base trailing = .erange ↔
+      ∃ v, Accepts base trailing (cstr bs) v ∧ ¬ InRange t min max v := by
+  unfold parsenum; rw [ex6_master _ _ _ _ _ _ hb]; exact expected_erange_iff _ _ _ _
+
+-- F6: "-1" into a 64-bit unsigned target with the full range is ERANGE, not 2^64-1
+example : parsenum .u64 [0x2d, 0x31] (.u 0) (.u UMAX) 0 false = .erange := by decide
+example : parsenum .u8 [0x32, 0x35, 0x36] (.s (-7)) (.u 300) 10 false = .erange := by decide
+
+/-- the value of an accepted string is unique, so the three cases above are exclusive -/
+theorem accepts_value_unique (base : Nat) (trailing : Bool) (s : List UInt8) (v w : Int)
+    (h1 : Accepts base trailing s v) (h2 : Accepts base trailing s w) : v = w :=
+  accepts_unique h1 h2
+
+example : Accepts 10 false [0x2d, 0x37] (-7) :=
+  ⟨⟨[], .minus, [], [0x37]⟩, rfl, by simp, Or.inl rfl, by simp, 7, by decide, rfl⟩
+
+/-- the macro never reaches `ASSERT_FAIL` for an integer target with bounds -/
+theorem parsenum_never_aborts (t : IntTy) (bs : List UInt8) (min max : CVal) (base : Nat) (trailing : Bool)
+    (hb : BoundsOk t min max) : parsenum t bs min max base trailing ≠ .abort := by
+  unfold parsenum; rw [ex6_master _ _ _ _ _ _ hb]; exact expected_ne_abort _ _ _ _
+
+example : BoundsOk .i32 (.s (-10)) (.u 100) := by
+  refine ⟨?_, ?_, ?_⟩ <;> simp [CVal.Valid, CVal.toInt, InType, IntTy.lo, IntTy.hi, IMIN, IMAX, UMAX, IntTy.signed, IntTy.bits]
+
+/-! The bound-less forms `PARSENUM(&x, s)` / `PARSENUM_EX(&x, s, base, trailing)` (unsigned targets):
+    the bounds are the limits of the type. -/
+
+theorem parsenumNoBounds_ok_iff (t : IntTy) (bs : List UInt8) (base : Nat) (trailing : Bool) (v : Int)
+    (_hbase : ValidBase base) (ht : t.signed = false) :
+    parsenumNoBounds t bs base trailing = .ok v ↔ Accepts base trailing (cstr bs) v ∧ InType t v := by
+  unfold parsenumNoBounds; rw [ex4_master _ _ _ _ ht]; exact expected_ok_iff _ _ _ _ _
+
+example : parsenumNoBounds .u32 [0x66, 0x66] 16 false = .ok 255 := by decide
+
+theorem parsenumNoBounds_einval_iff (t : IntTy) (bs : List UInt8) (base : Nat) (trailing : Bool)
+    (_hbase : ValidBase base) (ht : t.signed = false) :
+    parsenumNoBounds t bs base trailing = .einval ↔ ¬ ∃ v, Accepts base trailing (cstr bs) v := by
+  unfold parsenumNoBounds; rw [ex4_master _ _ _ _ ht]; exact expected_einval_iff _ _ _ _
+
+example : parsenumNoBounds .u32 [0x66, 0x66] 0 false = .einval := by decide
+
+theorem parsenumNoBounds_erange_iff (t : IntTy) (bs : List UInt8) (base : Nat) (trailing : Bool)
+    (_hbase : ValidBase base) (ht : t.signed = false) :
+    parsenumNoBounds t bs base trailing = .erange ↔
+      ∃ v, Accepts base trailing (cstr bs) v ∧ ¬ InType t v := by
+  unfold parsenumNoBounds; rw [ex4_master _ _ _ _ ht]; exact expected_erange_iff _ _ _ _
+
+example : parsenumNoBounds .u32 [0x2d, 0x31] 0 false = .erange := by decide
+
+/-- documented misuse: a signed target without bounds ends in `ASSERT_FAIL` -/
+theorem parsenumNoBounds_signed_aborts (t : IntTy) (bs : List UInt8) (base : Nat) (trailing : Bool)
+    (ht : t.signed = true) : parsenumNoBounds t bs base trailing = .abort := by
+  unfold parsenumNoBounds; rw [ex4_signed_abort _ _ _ _ ht]; rfl
+
+example : IntTy.signed .i16 = true := rfl
+
 end Percival.C16
